@@ -1181,6 +1181,37 @@ func valMalformed(tier string, rng *rand.Rand, emit func(Case)) {
 			}
 		}
 	}
+	// UTF-16LE data for unitext: pairs, lone / reversed surrogates, odd lengths, trailing NULs
+	for _, h := range []string{"4100", "41004200", "e565", "3dd800de", "3dd8", "00de", "00de3dd8", "3dd83dd800de", "3dd84100", "410000de",
+		"41", "410042", "0000", "41000000", "00004100", "ffff", "fdff", "ffdb00dc", "ffdbffdf", "00d800dc", "ffdfffdb", "410000"} {
+		emit(Case{Line: "val dec ae " + h, Kind: "dec-unitext"})
+	}
+	nu := 300
+	if tier == "thorough" {
+		nu = 20000
+	}
+	for k := 0; k < nu; k++ {
+		n := 1 + rng.Intn(6)
+		b := make([]byte, 0, 2*n+1)
+		for i := 0; i < n; i++ {
+			var u int
+			switch rng.Intn(5) {
+			case 0:
+				u = 0xd800 + rng.Intn(0x400)
+			case 1:
+				u = 0xdc00 + rng.Intn(0x400)
+			case 2:
+				u = rng.Intn(0x80)
+			default:
+				u = rng.Intn(0x10000)
+			}
+			b = append(b, byte(u), byte(u>>8))
+		}
+		if k%10 == 0 {
+			b = append(b, byte(rng.Intn(256)))
+		}
+		emit(Case{Line: "val dec ae " + hx(b), Kind: "dec-unitext"})
+	}
 	// NULL through every type in the property's domain at its own lengths
 	for _, t := range valAllTypes {
 		if valInProperty(t) {
@@ -1203,7 +1234,7 @@ func valSweeps(tier string, rng *rand.Rand, emit func(Case)) {
 		for lo := 0; lo < 25920000; lo += 160000 {
 			emit(Case{Line: fmt.Sprintf("val rtsweep 33 %d %d", lo, 160000), Kind: "sweep-every-tick"})
 		}
-		// every tick of 1900-01-01, of a random later day and (known to fail) of 1899-12-31
+		// every tick of 1900-01-01, of a random later day and of 1899-12-31 (negative day count)
 		for _, day := range []int64{693595, 693595 + int64(rng.Intn(2958463)), 693594} {
 			for lo := int64(0); lo < 25920000; lo += 160000 {
 				emit(Case{Line: fmt.Sprintf("val rtsweep 3d %d %d", day*25920000+lo, 160000), Kind: "sweep-datetime-day"})
